@@ -121,7 +121,7 @@ UpdProbeReply(h, e) ==
 UpdCliSend(h, e) ==
   LET sv == SvcOf(h, e.svc)
       r  == [ svc |-> e.svc, kind |-> e.kind, hold |-> e.hold, hc |-> e.hc, cookie |-> e.cookie,
-              abort |-> e.abort, send |-> e.seq, sendT |-> e.t, recv |-> 0, recvT |-> 0, status |-> 0,
+              abort |-> e.abort, tls |-> e.tls, send |-> e.seq, sendT |-> e.t, recv |-> 0, recvT |-> 0, status |-> 0,
               origin |-> "", intact |-> FALSE, msg |-> "", page |-> "",
               tg |-> NoTg, beg |-> 0, begT |-> 0, endSeq |-> 0, endT |-> 0, how |-> "", nbeg |-> 0,
               curAtSend |-> sv.cur, curRAtSend |-> sv.curR, pAtSend |-> sv.pstate, pdefAtSend |-> sv.pdef,
@@ -155,7 +155,12 @@ UpdUpdateLb(h, e) ==
   THEN [h EXCEPT !.oldlb = IF Has(h.rlb, e.svc) THEN @ \cup {h.rlb[e.svc]} ELSE @, !.rlb = Put(@, e.svc, e.lb)]
   ELSE h
 UpdPreClaim(h, e) == IF ~Has(h.rq, e.r) THEN h ELSE [h EXCEPT !.rq[e.r].lb = e.lb]
-UpdGate(h, e) == IF ~Has(h.rq, e.r) THEN h ELSE [h EXCEPT !.rq[e.r].gateSeq = e.seq]
+\* the moment the request read the pause gate as open: getWaitState returned "running", or the release channel fired
+UpdGate(h, e) ==
+  IF ~Has(h.rq, e.r) THEN h
+  ELSE IF e.ev = "y_wait_released" \/ e.state = 0 THEN [h EXCEPT !.rq[e.r].gateSeq = e.seq]
+  ELSE h
+UpdRemove(h, e) == [h EXCEPT !.inst = Put(@, e.svc, 0)]
 UpdPauseState(h, e) == IF e.state \in {1, 2} THEN [h EXCEPT !.pauseSeq = e.seq] ELSE h
 UpdClaim(h, e) ==
   IF ~Has(h.rq, e.r) THEN h
@@ -181,7 +186,8 @@ Upd(h, e) ==
     [] e.ev = "e_install"      -> UpdInstall(h, e)
     [] e.ev = "e_update_lb"    -> UpdUpdateLb(h, e)
     [] e.ev = "y_pre_claim"    -> UpdPreClaim(h, e)
-    [] e.ev = "y_gate_passed"  -> UpdGate(h, e)
+    [] e.ev \in {"y_wait_snapshot", "y_wait_released"} -> UpdGate(h, e)
+    [] e.ev = "e_remove"       -> UpdRemove(h, e)
     [] e.ev = "e_pause_state"  -> UpdPauseState(h, e)
     [] e.ev \in {"e_claim", "e_claim_refused", "e_claim_none"} -> UpdClaim(h, e)
     [] OTHER -> h
@@ -189,7 +195,8 @@ Upd(h, e) ==
 (***************************************************************************)
 (* Known-finding signatures of a request                                   *)
 (***************************************************************************)
-Sig(r) == IF r.stale THEN "stale-ref" ELSE IF r.gateclaim THEN "gate-claim" ELSE ""
+Sig(r) == IF r.stale /\ r.gateclaim THEN "stale-ref+gate-claim"
+          ELSE IF r.stale THEN "stale-ref" ELSE IF r.gateclaim THEN "gate-claim" ELSE ""
 
 (***************************************************************************)
 (* Checks                                                                  *)
@@ -207,7 +214,9 @@ NatEnd(r, s) ==
   IF r.how = "replied" THEN r.endT
   ELSE IF r.kind = "plain" THEN r.begT
   ELSE IF r.kind = "slow" THEN r.begT + r.hold
-  ELSE IF r.kind = "upgrade" THEN Max(s, r.begT)
+  \* an upgraded connection is closed when draining begins - if it was already upgraded by then;
+  \* one that upgrades during the drain window is cut at the deadline like any other request
+  ELSE IF r.kind = "upgrade" /\ r.begT < s THEN s
   ELSE IF r.kind = "slowupgrade" /\ r.begT + r.hold < s THEN s
   ELSE Infinity
 
@@ -223,7 +232,7 @@ ChkTgBeg(h, e) ==
   IN  If(notOk # {}, {V("C01_a", e.r, Sig(r), <<"target", e.tg, "group member without a 2xx probe reply", notOk>>)})
    \cup If(c.ret # 0 /\ c.res # "ok", {V("C01_c", e.r, Sig(r), <<"request reached target of failed deploy", e.tg, t.grp>>)})
    \cup If(r.svc # c.svc, {V("C04_svc", e.r, Sig(r), <<"request for", r.svc, "reached target of", c.svc>>)})
-   \cup If(t.retSeq # 0 /\ t.retWhy \in {"replaced", "removed"},
+   \cup If(t.retSeq # 0 /\ t.retWhy = "replaced",      \* (remove does not drain: no promise there)
            {V("C03_b", e.r, Sig(r), <<"request sent to", e.tg, "after", t.retBy, "returned", t.retWhy>>)})
    \cup If(~sv.mess /\ sv.pdef /\ sv.pstate = "paused" /\ r.send > h.cmd[sv.pcmd].ret,
            {V("C07_a", e.r, Sig(r), <<"request sent while paused forwarded before resume", e.tg>>)})
@@ -302,6 +311,75 @@ C02pre(h, r, seq, now) ==
   /\ \A k \in ov : now - r.sendT < h.cmd[k].drto
   /\ \A u \in Allowed(h, r, seq) : ~h.tg[u].flaky
 
+(***************************************************************************)
+(* Pause / stop / resume (C07, C08).  The operator-visible state of a      *)
+(* service is definite only between the return of the pause-type command   *)
+(* that set it and the call of the next one (pdef).                        *)
+(***************************************************************************)
+\* pause-type commands of r's service called during r's life so far
+PauseCalls(h, r, seq) ==
+  {k \in DOMAIN h.cmd : /\ h.cmd[k].svc = r.svc /\ h.cmd[k].kind \in PauseKinds
+                        /\ h.cmd[k].call > r.send /\ h.cmd[k].call < seq}
+\* other commands overlapping r's life
+OtherCalls(h, r, seq) == {k \in Overlapping(h, r, seq) : h.cmd[k].kind \notin PauseKinds}
+FirstOf(h, S) == CHOOSE k \in S : \A j \in S : h.cmd[k].call <= h.cmd[j].call
+
+AllowedAfter(h, r, f, seq) ==
+  TargetsOf(h, h.cmd[f].pre.cur)
+  \cup UNION {h.cmd[k].targets : k \in {j \in DOMAIN h.cmd :
+                 /\ h.cmd[j].svc = r.svc /\ h.cmd[j].kind = "deploy" /\ h.cmd[j].call < seq
+                 /\ h.cmd[j].ret = 0 \/ (h.cmd[j].ret > h.cmd[f].call /\ h.cmd[j].res = "ok")}}
+
+PausePre(h, r, seq) ==
+  /\ Has(h.svc, r.svc) /\ ~h.svc[r.svc].mess
+  /\ r.kind \in {"plain", "slow"} /\ r.abort = 0 /\ r.cookie = "" /\ ~r.tls
+  /\ r.curAtSend # NoCmd /\ r.pdefAtSend
+  /\ \A k \in OtherCalls(h, r, seq) : h.cmd[k].kind = "deploy"
+
+ChkPause(h, r, rid, e) ==
+  IF ~PausePre(h, r, e.seq) THEN {} ELSE
+  LET P      == PauseCalls(h, r, e.seq)
+      Pp     == {k \in P : h.cmd[k].kind # "pause"}          \* a repeated pause does not affect a held request
+      mps    == {h.cmd[k].maxPause : k \in {j \in P : h.cmd[j].kind = "pause"}}
+                \cup (IF r.pAtSend = "paused" THEN {h.cmd[r.pcmdAtSend].maxPause} ELSE {})
+      dlMin  == r.sendT + MinOf(mps, 0)
+      dlMax  == r.sendT + MaxOf(mps, 0)
+      steady == \A u \in TargetsOf(h, r.curAtSend) : ~h.tg[u].flaky
+  IN
+  IF r.hc THEN
+     \* C07_e: health-check GET while definitely paused or stopped: 200 from the proxy itself, at once
+     If(r.pAtSend \in {"paused", "stopped"} /\ P = {} /\
+        ~(e.status = 200 /\ e.origin = "proxy" /\ (h.urgent => e.t = r.sendT)),
+        {V("C07_e", rid, Sig(r), <<"health-check request while", r.pAtSend, "got", e.status, e.origin, e.t>>)})
+  ELSE IF r.pAtSend = "paused" THEN
+     IF Pp = {} THEN
+        \* C07_d: neither resumed nor stopped: 504 once held longer than max-pause
+        If(~(e.status = 504 /\ e.t >= dlMin /\ (h.urgent => e.t <= dlMax)),
+           {V("C07_d", rid, Sig(r), <<"held request answered", e.status, "at", e.t, "max-pause deadline", dlMin, dlMax>>)})
+     ELSE LET f == FirstOf(h, Pp) IN
+        IF Pp # {f} \/ h.cmd[f].callT >= dlMin \/ (\E k \in P : h.cmd[k].call > h.cmd[f].call) THEN {}
+        ELSE IF h.cmd[f].kind = "resume" THEN
+           \* C07_b: released by resume: forwarded to the targets the service has at that moment
+           If(steady /\ (\A u \in AllowedAfter(h, r, f, e.seq) : ~h.tg[u].flaky)
+              /\ (r.kind = "slow" => r.hold < RespTimeout - 100)
+              /\ (\A k \in OtherCalls(h, r, e.seq) : e.t - h.cmd[f].callT < h.cmd[k].drto)
+              /\ ~(e.status = 200 /\ e.origin \in AllowedAfter(h, r, f, e.seq) /\ e.intact),
+              {V("C07_b", rid, Sig(r), <<"held request released by resume got", e.status, e.origin, "allowed", AllowedAfter(h, r, f, e.seq)>>)})
+        ELSE
+           \* C07_c: stopped while held: 503 with the stop message
+           If(~(e.status = 503 /\ e.msg = h.cmd[f].msg),
+              {V("C07_c", rid, Sig(r), <<"held request after stop got", e.status, e.msg, "expected 503", h.cmd[f].msg>>)})
+  ELSE IF r.pAtSend = "stopped" THEN
+     \* C08: definitely stopped and not disturbed: 503 with the operator's message, at once
+     If(P = {} /\ ~(e.status = 503 /\ e.msg = h.cmd[r.pcmdAtSend].msg /\ (h.urgent => e.t = r.sendT)),
+        {V("C08", rid, Sig(r), <<"request while stopped got", e.status, e.msg, "expected 503", h.cmd[r.pcmdAtSend].msg, e.t>>)})
+  ELSE
+     \* C07_f: running at send: a 503 needs a stop during the request's life (or failing targets)
+     \* (requests overlapping a redeploy are C02's business, not this one's)
+     If(e.status = 503 /\ steady /\ (\A k \in P : h.cmd[k].kind # "stop") /\ OtherCalls(h, r, e.seq) = {}
+        /\ (\A u \in Allowed(h, r, e.seq) : ~h.tg[u].flaky),
+        {V("C07_f", rid, Sig(r), <<"503 although the service was never stopped during the request", P>>)})
+
 ChkCliRecv(h, g, e) ==
   IF ~Has(h.rq, e.r) THEN {V("HARNESS", e.r, "", "unknown request in cli_recv")}
   ELSE
@@ -313,6 +391,7 @@ ChkCliRecv(h, g, e) ==
          {V("C03_c", e.r, Sig(r), <<"target replied but client got", e.status, e.origin>>)})
    \cup If(r.how = "cancelled" /\ r.abort = 0 /\ e.status # 504,
          {V("C03_c", e.r, Sig(r), <<"request cut off without a 504", e.status>>)})
+   \cup ChkPause(h, r, e.r, e)
 
 ChkProbe(h, e) ==
   IF ~Has(h.tg, e.tg) THEN {}
@@ -329,11 +408,14 @@ ChkEnd(h, e) ==
   LET unanswered == {r \in DOMAIN h.rq : h.rq[r].recv = 0}
       stillOpen == {r \in DOMAIN h.rq : /\ h.rq[r].beg # 0 /\ h.rq[r].endSeq = 0
                                         /\ \E k \in DrainedBy(h, h.rq[r].tg) : h.rq[r].beg < h.cmd[k].ret}
+      \* (exact drain-start times are not reconstructed when commands on the service overlapped)
       unexplained == {r \in DOMAIN h.rq : /\ h.rq[r].how \in {"cancelled", "closed"}
+                                          /\ ~SvcOf(h, h.rq[r].svc).mess
                                           /\ ~Explained(h, h.rq[r])}
       \* upgraded connections that survived the start of a drain of their target
       survivors == {r \in DOMAIN h.rq :
                       /\ h.rq[r].kind \in {"upgrade", "slowupgrade"} /\ h.rq[r].beg # 0
+                      /\ ~SvcOf(h, h.rq[r].svc).mess
                       /\ \E k \in DrainedBy(h, h.rq[r].tg) :
                             /\ h.rq[r].begT + h.rq[r].hold < h.cmd[k].s
                             /\ h.rq[r].endSeq = 0 \/ h.rq[r].endT > h.cmd[k].s}
@@ -363,6 +445,7 @@ Chk(h, g, e) ==
 Exercised(h, g, e) ==
   CASE e.ev = "tg_beg" /\ Has(h.tg, e.tg) /\ Has(h.rq, e.r) ->
          {"C01_a", "C01_c", "C03_b", "C04_svc"}
+         \cup If(SvcOf(h, h.rq[e.r].svc).pstate # "running" \/ h.rq[e.r].pAtSend # "running", {"C07_a", "C08_fwd"})
          \cup If(h.urgent /\ h.tg[e.tg].flaky, {"C09_b"})
     [] e.ev = "tg_end" /\ Has(h.tg, e.tg) /\ Has(h.rq, e.r) ->
          If(\E k \in DOMAIN h.cmd : e.tg \in h.cmd[k].prev, {"C03_a"})
@@ -378,6 +461,12 @@ Exercised(h, g, e) ==
          If(C02pre(h, r, e.seq, e.t), {"C02"})
          \cup If(C02pre(h, r, e.seq, e.t) /\ \E k \in Overlapping(h, r, e.seq) : TRUE, {"C02_overlap"})
          \cup If(r.how \in {"replied", "cancelled"} /\ \E k \in DOMAIN h.cmd : r.tg \in h.cmd[k].prev, {"C03_c"})
+         \cup If(PausePre(h, r, e.seq) /\ r.hc /\ r.pAtSend \in {"paused", "stopped"}, {"C07_e"})
+         \cup If(PausePre(h, r, e.seq) /\ ~r.hc /\ r.pAtSend = "paused" /\ e.status = 504, {"C07_d"})
+         \cup If(PausePre(h, r, e.seq) /\ ~r.hc /\ r.pAtSend = "paused" /\ e.status = 200, {"C07_b"})
+         \cup If(PausePre(h, r, e.seq) /\ ~r.hc /\ r.pAtSend = "paused" /\ e.status = 503, {"C07_c"})
+         \cup If(PausePre(h, r, e.seq) /\ ~r.hc /\ r.pAtSend = "stopped", {"C08"})
+         \cup If(PausePre(h, r, e.seq) /\ ~r.hc /\ r.pAtSend = "running" /\ PauseCalls(h, r, e.seq) # {}, {"C07_f"})
     [] e.ev = "tg_probe" /\ Has(h.tg, e.tg) ->
          If(h.urgent /\ h.tg[e.tg].retSeq = 0 /\ h.tg[e.tg].probeT >= 0, {"C09_a"})
     [] e.ev = "end" ->
